@@ -35,6 +35,27 @@ Theorem C16_reorder :
                   (combine (functions_of p') (o_fns out')).
 Proof. exact run_reorder. Qed.
 
+(** The same with the hypotheses as in the text of C16: no duplicate declaration names at all. *)
+Theorem C16_reorder_no_duplicate_names :
+  forall (p p' : program) (out : output),
+    NoDup (struct_names p) -> NoDup (const_names p) -> NoDup (fn_names p) ->
+    Permutation p p' -> filter is_const p = filter is_const p' ->
+    run p = ROk out ->
+    exists out', run p' = ROk out' /\
+      geq (o_globals out) (o_globals out') /\
+      Permutation (g_types (o_globals out)) (g_types (o_globals out')) /\
+      g_consts (o_globals out) = g_consts (o_globals out') /\
+      Permutation (g_funcs (o_globals out)) (g_funcs (o_globals out')) /\
+      Permutation (o_errors out) (o_errors out') /\
+      (o_errors out = [] <-> o_errors out' = []) /\
+      o_fns out = map (body_root (o_globals out)) (functions_of p) /\
+      o_fns out' = map (body_root (o_globals out')) (functions_of p') /\
+      (forall f, body_root (o_globals out) f = body_root (o_globals out') f) /\
+      (forall f, body_errors (o_globals out) f = body_errors (o_globals out') f) /\
+      Permutation (combine (functions_of p) (o_fns out))
+                  (combine (functions_of p') (o_fns out')).
+Proof. exact run_reorder_no_duplicate_names. Qed.
+
 (** A function keeps its root block wherever it moves. *)
 Theorem C16_reorder_roots :
   forall (p p' : program) (out out' : output) (i : nat) (f : fn_decl),
@@ -118,11 +139,14 @@ Example C16_example :
     map fst (g_funcs (o_globals out)) = ["f"; "g"] /\
     map fst (g_funcs (o_globals out')) = ["g"; "f"] /\
     map e_kind (o_errors out) =
-      [EConstantAlreadyExist; ETypeNotFound; EValueNotFound; EReturnNotFound] /\
+      [EConstantAlreadyExist; ETypeNotFound; EValueNotFound; EReturnNotFound;
+       ETypeNotFound; EWrongReturnType] /\
     map e_kind (o_errors out') =
-      [ETypeNotFound; EConstantAlreadyExist; EValueNotFound; EReturnNotFound] /\
+      [ETypeNotFound; EConstantAlreadyExist; ETypeNotFound; EWrongReturnType;
+       EValueNotFound; EReturnNotFound] /\
     nth_error (o_fns out) 1 = nth_error (o_fns out') 1 /\
-    nth_error (o_fns out) 0 = nth_error (o_fns out') 2.
+    nth_error (o_fns out) 0 = nth_error (o_fns out') 2 /\
+    nth_error (o_fns out) 2 = nth_error (o_fns out') 0.
 Proof.
   split; [vm_compute; repeat constructor; intros []|].
   split; [vm_compute; repeat constructor; cbn; intuition discriminate|].
@@ -138,10 +162,11 @@ Proof.
   split; [reflexivity|].
   eexists. eexists.
   split; [vm_compute; reflexivity|]. split; [vm_compute; reflexivity|].
-  vm_compute. repeat split. Show.
+  vm_compute. repeat split.
 Qed.
 
 Print Assumptions C16_reorder.
+Print Assumptions C16_reorder_no_duplicate_names.
 Print Assumptions C16_reorder_roots.
 Print Assumptions C16_body_respects_lookup_equivalence.
 Print Assumptions C16_example.
